@@ -598,6 +598,10 @@ def process_fn(unit, lines, i, arg, rel_tpl):
         s = lines[j].strip()
         if s.startswith('//@loop'):
             sections.append(('loop', int(s.split()[1]), []))
+        elif s.startswith('//@after_np'):
+            # a hint used only by the total (no-abort) assembly: a lost anchor then cannot touch the partial-mode verdict
+            mm = re.match(r'//@after_np\s+(\d+)\s+(.*)$', s)
+            sections.append(('after_np', (int(mm.group(1)), mm.group(2)), []))
         elif s.startswith('//@after'):
             mm = re.match(r'//@after\s+(\d+)\s+(.*)$', s)
             sections.append(('after', (int(mm.group(1)), mm.group(2)), []))
@@ -748,7 +752,9 @@ def process_fn(unit, lines, i, arg, rel_tpl):
                       raise AssembleError('fn %s: loop %d not found (%d loops)' % (name, key, len(loops)))
                   inserts.append((loops[key][1], '\n' + text + '\n', origin, sl))
                   st['R4_loop_spec'] = st.get('R4_loop_spec', 0) + 1
-              elif kind == 'after':
+              elif kind == 'after_np' and unit.mode != 'total':
+                  continue
+              elif kind in ('after', 'after_np'):
                   kth, stmt = key
                   ns = norm_ws(stmt)
                   # search for statement text with normalized whitespace
